@@ -113,4 +113,35 @@ def reachedEntriesPresent (temp : List TempEntry) (id : Nat) (msgs : List PMsg) 
     | some v => temp.contains ⟨a, id, v⟩
     | none => true
 
+/-! ### the accounts an operation takes funds from -/
+
+/-- the accounts an operation debits (whoever signs it): the proposer / depositor of a gov
+deposit, the sender of a send / multi-send / delegation / fee payment, the account a marker
+transfer takes the coins from (not its administrator), the marker's / the market's account for a
+withdrawal, the paying sides of a payment, both sides of a settlement.  The run-time checker asks
+of these accounts (`checkOp`): refused when one of them is sanctioned, never refused as sanctioned
+when none is; `PvProofs.C06.sanctioned_refusal_names_sanctioned_debited` is the second half for
+the model. -/
+def debited (c : Cfg) : Op → List Addr
+  | .submit who _ _ _ => [who]
+  | .deposit who _ _ => [who]
+  | .send f _ _ => [f]
+  | .msend f _ _ => [f]
+  | .delegate who _ => [who]
+  | .tomod who _ => [who]
+  | .mxfer _ frm _ _ x => if 0 < x then [frm] else []
+  | .mwd _ _ d _ => match getMarkerByDenom c d with | some m => [m.addr] | none => []
+  | .mktwd _ _ _ => [c.market]
+  | .pay src tgt sAmt tAmt => (if sAmt.isEmpty then [] else [src]) ++ (if tAmt.isEmpty then [] else [tgt])
+  | .settle seller buyer _ _ => [seller, buyer]
+  | _ => []
+
+/-- the last message of a proposal that names `a` (what a passed proposal does to `a`) -/
+def lastNaming (a : Addr) (msgs : List PMsg) : Option Bool := lastReached (fun _ => true) a msgs
+
+/-- what the deposit records `ds` hold for depositor `a` in denom `d` (what a refund owes it) -/
+def owed (a : Addr) (d : Denom) : List (Addr × Coins) → Int
+  | [] => 0
+  | x :: rest => (if x.1 = a then Coins.amountOf x.2 d else 0) + owed a d rest
+
 end PvModel.Sanc.Spec
